@@ -55,5 +55,5 @@ MANIFEST = {
     "note": "Kernel-checked theorems are about the model. No control of the wall clock: 'due' regimes are configured, the passage of "
             "time is modelled only. TA objects outside republish_all (F-C14-1, by design of the code). Recorded finding F-C14-2: a "
             "command can re-issue a due manifest without queueing the repository sync (negation proved with a decide witness, replayed).",
-    "technique": "Lean 4 proof (invariants over histories, induction) + correspondence check (system stream) + oracle on decoded repository",
+    "technique": "Lean 4 proof (invariants over histories, induction) + correspondence check (system stream) + oracle on decoded repository + source translator (bodies of requires_reissuance / requires_re_issuance as Lean definitions, equality with the model proved)",
 }
